@@ -227,12 +227,39 @@ class Check:
         trivial = set()
         if self.harness_ok:
             ip = os.path.join(self.work, "impl.txt")
-            with open(self.cases_path) as fin, open(ip, "w") as fout:
-                env = dict(os.environ, GOMEMLIMIT="6GiB", GOTRACEBACK="single")
-                rc, _ = sh([self.harness_bin, "run", self.cfg.get("harness", self.pid)], stdin=fin, stdout=fout, stderr=open(os.path.join(self.work, "impl.err"), "w"), timeout=tmo, env=env)
-            if rc != 0:
-                err = open(os.path.join(self.work, "impl.err")).read()[-500:]
-                self.broken.append("harness run on the implementation exited %d (%s)" % (rc, "timeout" if rc == 124 else err.strip().replace("\n", " | ")[-300:]))
+            env = dict(os.environ, GOMEMLIMIT="6GiB", GOTRACEBACK="single")
+            remaining = list(self.cases)
+            open(ip, "w").close()
+            crashes = 0
+            while remaining:
+                part_in = os.path.join(self.work, "cases.part.txt")
+                part_out = os.path.join(self.work, "impl.part.txt")
+                open(part_in, "w").write("\n".join(remaining) + "\n")
+                with open(part_in) as fin, open(part_out, "w") as fout:
+                    rc, _ = sh([self.harness_bin, "run", self.cfg.get("harness", self.pid)], stdin=fin, stdout=fout, stderr=open(os.path.join(self.work, "impl.err"), "w"), timeout=tmo, env=env)
+                outtxt = open(part_out).read()
+                done = [l.split(" ", 1)[0] for l in outtxt.splitlines() if l.endswith(" DONE")]
+                with open(ip, "a") as acc:
+                    if rc == 0:
+                        acc.write(outtxt)
+                        break
+                    # the process died: keep the finished cases, blame the first unfinished one
+                    keep = set(done)
+                    for l in outtxt.splitlines():
+                        if l.split(" ", 1)[0] in keep or l.startswith("#STAT"):
+                            acc.write(l + "\n")
+                    crashed = remaining[len(done)] if len(done) < len(remaining) else None
+                    err = open(os.path.join(self.work, "impl.err")).read()
+                    head = " | ".join(x.strip() for x in err.strip().splitlines()[:6])[:500]
+                    if crashed is None or crashes >= 25 or rc == 124:
+                        self.broken.append("harness run on the implementation exited %d (%s)" % (rc, "timeout" if rc == 124 else head))
+                        break
+                    cid = crashed.split(" ", 1)[0]
+                    acc.write("%s OBS CRASH\n%s PRED FAIL crash the process running the code under test died on this case: %s\n" % (cid, cid, head.replace("\n", " ")))
+                    crashes += 1
+                    remaining = remaining[len(done) + 1:]
+            if crashes:
+                self.notes.append("%d case(s) crashed the harness process and were isolated" % crashes)
             for l in open(ip):
                 l = l.rstrip("\n")
                 if l.startswith("#STAT "):
@@ -252,6 +279,8 @@ class Check:
                     replays.setdefault(cid, []).append(rest)
                 elif kind == "TRIV":
                     trivial.add(cid)
+                elif kind == "DONE":
+                    pass
         model = {}
         if self.model_ok and not self.cfg.get("no_model"):
             mp = os.path.join(self.work, "model.txt")
